@@ -34,6 +34,9 @@ def returns_are_stored(rep, f, rule, slot):
             if st is not None and _stores_results(st, nodep) == val:
                 # the stored name must not be reassigned between the store and the return
                 good = True
+            if st is not None and _stores_results(st, nodep) is not None and val == ast.unparse(st.targets[0]):
+                # results[node] = <value>; return results[node]: the entry just written is what is returned
+                good = True
         if not good:
             ok = False
             rep.fail(rule, f.module.rel, f.qual, slot, 'a path returns `%s` without having stored it in results[%s]: get_value() of that '
@@ -71,7 +74,8 @@ def check_store(ix, rep, rule='R-STORE'):
                 # memoising visit: the hit path must also record results[node]; the miss path delegates to handlers that do
                 rep.analysed(v)
                 nodep = v.node.args.args[1].arg
-                for st in v.node.body:
+                from sa.rules import step as _step
+                for st in _step._normalise_visit(v.node).body:
                     if isinstance(st, ast.If) and any(isinstance(s, ast.Return) for s in st.body):
                         stored = any(_stores_results(s, nodep) for s in st.body)
                         if stored:
@@ -120,15 +124,103 @@ def check_name_table(ix, rep, rule='R-NAMES'):
                     v = ast.unparse(sub.value)
                     if k == v + '.name':
                         regs.add(v)
+                # the same store spelled as a call: table.update({X.name: X}) / table.setdefault(X.name, X) / table.__setitem__(X.name, X)
+                if isinstance(sub, ast.Call) and isinstance(sub.func, ast.Attribute) and isinstance(sub.func.value, ast.Attribute) \
+                        and sub.func.value.attr == 'phi_name_to_node_dict':
+                    pairs = []
+                    if sub.func.attr == 'update' and len(sub.args) == 1 and isinstance(sub.args[0], ast.Dict):
+                        pairs = list(zip(sub.args[0].keys, sub.args[0].values))
+                    elif sub.func.attr == '__setitem__' and len(sub.args) == 2:
+                        pairs = [(sub.args[0], sub.args[1])]
+                    for k_, v_ in pairs:
+                        if k_ is not None and ast.unparse(k_) == ast.unparse(v_) + '.name':
+                            regs.add(ast.unparse(v_))
+            # a node built in the return statement itself has no name to register it under
+            for r_ in ast.walk(f.node):
+                if isinstance(r_, ast.Return) and isinstance(r_.value, ast.Call) and isinstance(r_.value.func, ast.Name):
+                    ent = ix.resolve_expr(f.module, r_.value.func)
+                    if isinstance(ent, ClassInfo) and ent in nodes and ent.name == 'Variable':
+                        n += 1
+                        rep.fail(rule, f.module.rel, f.qual, 'register:return', 'the Variable node built in the return statement of %s is not registered in phi_name_to_node_dict '
+                                 'under its name: get_value() of an input variable finds nothing' % (f.name,), r_.lineno)
+            # every store into the table is under the stored node's own name (visitAssertion: the assertion identifier): a node stored under
+            # another node's name replaces what get_value() of that name returns
+            for sub in ast.walk(f.node):
+                kv = []
+                if isinstance(sub, ast.Assign) and isinstance(sub.targets[0], ast.Subscript) and isinstance(sub.targets[0].value, ast.Attribute) \
+                        and sub.targets[0].value.attr == 'phi_name_to_node_dict':
+                    kv = [(sub.targets[0].slice, sub.value)]
+                elif isinstance(sub, ast.Call) and isinstance(sub.func, ast.Attribute) and isinstance(sub.func.value, ast.Attribute) \
+                        and sub.func.value.attr == 'phi_name_to_node_dict':
+                    if sub.func.attr == 'update' and len(sub.args) == 1 and isinstance(sub.args[0], ast.Dict):
+                        kv = [(k_, v_) for k_, v_ in zip(sub.args[0].keys, sub.args[0].values) if k_ is not None]
+                    elif sub.func.attr in ('__setitem__', 'setdefault') and len(sub.args) == 2:
+                        kv = [(sub.args[0], sub.args[1])]
+                    elif sub.func.attr in ('update', '__setitem__', 'setdefault', 'pop', 'clear', 'popitem'):
+                        raise AnalysisError('%s: `%s` changes the name table in a form that is not interpreted' % (f.where, ast.unparse(sub)[:60]))
+                for k_, v_ in kv:
+                    if f.name == 'visitAssertion':
+                        continue
+                    n += 1
+                    if ast.unparse(k_) == ast.unparse(v_) + '.name':
+                        rep.ok(rule, f.module.rel, f.qual, 'own-key:%s' % ast.unparse(v_)[:20], 'stored under its own name', sub.lineno)
+                    else:
+                        rep.fail(rule, f.module.rel, f.qual, 'own-key:%s' % ast.unparse(v_)[:20], 'the node `%s` is stored in phi_name_to_node_dict under `%s`, which is not its own '
+                                 'name: the entry of that name -- a variable, an assertion -- now points to this node and get_value() returns its value instead'
+                                 % (ast.unparse(v_)[:30], ast.unparse(k_)[:40]), sub.lineno)
             rets = [s for s in ast.walk(f.node) if isinstance(s, ast.Return) and isinstance(s.value, ast.Name)]
             returned = {r.value.id for r in rets}
+            # registration is judged per construction: the store that follows the constructor call on its path (a later statement of the same
+            # block or of an enclosing block), not a store in a sibling branch
+            parent = {}
+            for p_ in ast.walk(f.node):
+                for fld in ('body', 'orelse', 'finalbody', 'handlers'):
+                    lst = getattr(p_, fld, None)
+                    if isinstance(lst, list):
+                        for i_, c_ in enumerate(lst):
+                            parent[id(c_)] = (p_, lst, i_)
+
+            def registered_after(stmt, name):
+                cur = stmt
+                while id(cur) in parent:
+                    p_, lst, i_ = parent[id(cur)]
+                    for later in lst[i_ + 1:]:
+                        for x in ast.walk(later):
+                            if isinstance(x, ast.Assign) and isinstance(x.targets[0], ast.Subscript) and isinstance(x.targets[0].value, ast.Attribute) \
+                                    and x.targets[0].value.attr == 'phi_name_to_node_dict' and ast.unparse(x.targets[0].slice) == name + '.name' and ast.unparse(x.value) == name:
+                                return True
+                            if isinstance(x, ast.Call) and isinstance(x.func, ast.Attribute) and isinstance(x.func.value, ast.Attribute) \
+                                    and x.func.value.attr == 'phi_name_to_node_dict' and ('%s.name' % name) in ast.unparse(x) and name in [ast.unparse(a) for a in ast.walk(x) if isinstance(a, ast.Name)]:
+                                return True
+                        if isinstance(later, ast.Return):
+                            return False
+                    cur = p_
+                    if isinstance(cur, (ast.FunctionDef,)):
+                        break
+                return False
+            for (bname, bcls, bstmt) in built:
+                if bcls != 'Variable' or bname not in returned:
+                    continue
+                n += 1
+                if registered_after(bstmt, bname):
+                    rep.ok(rule, f.module.rel, f.qual, 'register-variable', 'the Variable node is registered under its name on the path that builds it', bstmt.lineno)
+                else:
+                    rep.fail(rule, f.module.rel, f.qual, 'register-variable', 'the Variable node built by %s is not registered in phi_name_to_node_dict under node.name on the '
+                             'path that builds it: get_value() of an input variable finds nothing' % f.name, bstmt.lineno)
             for name in sorted(returned & {b[0] for b in built}):
                 n += 1
+                classes = {b[1] for b in built if b[0] == name}
                 if name in regs:
                     rep.ok(rule, f.module.rel, f.qual, 'register:%s' % name, 'built node is registered under its printed name', f.node.lineno)
+                elif 'Variable' in classes:
+                    # get_value(v) of an input variable finds the variable through this entry (its printed name is the variable name)
+                    rep.fail(rule, f.module.rel, f.qual, 'register:%s' % name, 'the Variable node built and returned by %s is not registered in '
+                             'phi_name_to_node_dict under node.name: get_value() of an input variable finds nothing' % f.name, f.node.lineno)
                 else:
-                    rep.fail(rule, f.module.rel, f.qual, 'register:%s' % name, 'the node built and returned by %s is not registered in '
-                             'phi_name_to_node_dict under node.name' % f.name, f.node.lineno)
+                    # an operator node is reachable by its printed text only (an extra the property does not ask for): assertion and
+                    # sub-specification names are registered by visitAssertion
+                    rep.undecided(rule, f.module.rel, f.qual, 'register:%s' % name, 'operator node not registered under its printed text; not required for assertion, '
+                                  'sub-specification and variable names', f.node.lineno)
     # assertion name -> root node
     f = ix.resolve_method(stl, 'visitAssertion')
     reg = [s for s in f.node.body if isinstance(s, ast.Assign) and 'phi_name_to_node_dict[' in ast.unparse(s.targets[0])]
